@@ -143,6 +143,14 @@ def checked(rep, c):
                         used = str_get_over(cnd["init"], params)
                         if used is not None and used == stored and any(v.endswith("Option::Some") for v in hirq.pat_variants(cnd["pat"])):
                             ok = True
+                if g[0] == "if" and g[2] is False:
+                    cnd = peel(g[1])
+                    neg = kind(cnd) == "Unary" and cnd["op"] == "!"
+                    inner = peel(cnd["e"]) if neg else cnd
+                    if kind(inner) == "MethodCall" and inner["m"] == ("is_some" if neg else "is_none"):
+                        used = str_get_over(inner["recv"], params)
+                        if used is not None and used == stored:
+                            ok = True   # the else branch of `if input.get(..).is_none()`
                 if g[0] == "not":
                     cnd = peel(g[1])
                     if kind(cnd) == "MethodCall" and cnd["m"] == "is_none":
